@@ -23,6 +23,7 @@ type Options struct {
 	MaxExec     int64     // 0: unlimited
 	Deadline    time.Time // zero: none
 	StopAtFirst bool
+	StrictDev   bool  // forced switches to a non-default goroutine cost 1 too
 	Prefix      []int // explore only below this prefix (sharding)
 	PrefixCost  int
 }
@@ -68,9 +69,11 @@ func Explore(sc *Scenario, opt Options) *Stats {
 		fp uint64
 	}
 	FingerprintIgnoresRunning = opt.Bound < 0
+	StrictDeviations = opt.StrictDev
 	cache := map[uint64]int{} // fingerprint -> best remaining budget explored (+1)
 	stack := []frame{{prefix: append([]int{}, opt.Prefix...), cost: opt.PrefixCost}}
 	seenSig := map[string]bool{}
+	endStates := map[uint64]struct{}{}
 	for len(stack) > 0 {
 		if opt.MaxExec > 0 && st.Executions >= opt.MaxExec {
 			st.Complete = false
@@ -116,6 +119,9 @@ func Explore(sc *Scenario, opt Options) *Stats {
 			break
 		}
 		st.Points += int64(len(r.Trace))
+		if len(endStates) < 4000000 {
+			endStates[r.EndFP] = struct{}{}
+		}
 		if len(r.Trace) > st.MaxDepth {
 			st.MaxDepth = len(r.Trace)
 		}
@@ -176,6 +182,9 @@ func Explore(sc *Scenario, opt Options) *Stats {
 		}
 	}
 	st.States = int64(len(cache))
+	if int64(len(endStates)) > st.States {
+		st.States = int64(len(endStates))
+	}
 	return st
 }
 
